@@ -23,7 +23,7 @@ def common_sources():
 
 def jobs(tier):
     J = []
-    types = TYPES[:6] if tier == "quick" else TYPES
+    types = TYPES[:8] if tier == "quick" else TYPES
     for (t, r, c) in TYPES if tier != "quick" else TYPES[:8]:
         if t in ("VNACAL_T16", "VNACAL_U16"):
             continue        # a 1x1 reflect measurement is not a valid shape for the 16-term types
@@ -38,6 +38,8 @@ def jobs(tier):
                          timeout=200))
     srcs = sorted(set(BASE + SOLVE + common_sources()))
     for (t, r, c) in types:
+        if t in ("VNACAL_T16", "VNACAL_U16"):
+            continue        # a 1x1 reflect measurement is not a valid shape for the 16-term types (would be vacuous)
         for me in (0, 1):
             d = CUT + ["-DCAL_TYPE=%s" % t, "-DCAL_ROWS=%d" % r, "-DCAL_COLS=%d" % c] + (["-DWITH_M_ERROR"] if me else [])
             J.append(V.Job("solve_too_few.%s_%dx%d%s" % (t[7:], r, c, "_merror" if me else ""), H, "h_solve_too_few",
